@@ -163,9 +163,11 @@ theorem upper_scaled_pos (inf tol hi a s x : K) (hs : 0 < s)
 
 /-! ### callbacks -/
 
-/-- Under the objective-first discipline every callback is answered at the design it asks about. -/
-theorem run_pure {X : Type} (s : St X) (cs : List (Call X)) (h : ObjFirst s.model s.gcache cs) :
-    (run s cs).1 = cs.map Call.arg := by
+/-- Anchored code: under the objective-first discipline every callback is answered at the design it
+asks about. -/
+theorem run_pure {X : Type} [DecidableEq X] (v : Variant) (hv : v.noSync = true) (s : St X)
+    (cs : List (Call X)) (h : ObjFirst s.model s.gcache cs) :
+    (run v s cs).1 = cs.map Call.arg := by
   induction cs generalizing s with
   | nil => rfl
   | cons c t ih =>
@@ -175,39 +177,48 @@ theorem run_pure {X : Type} (s : St X) (cs : List (Call X)) (h : ObjFirst s.mode
       rw [ih _ h]
     | con x =>
       obtain ⟨hx, ht⟩ := h
-      simp only [run, step, List.map_cons, Call.arg]
+      simp only [run, step, hv, if_true, List.map_cons, Call.arg]
       rw [ih _ ht, hx]
     | grad x =>
       obtain ⟨hx, ht⟩ := h
-      simp only [run, step, List.map_cons, Call.arg]
+      simp only [run, step, hv, if_true, List.map_cons, Call.arg]
       rw [ih _ (by simpa [hx] using ht), hx]
     | cgrad x =>
       cases hg : s.gcache with
       | some g =>
         simp only [ObjFirst, hg] at h
         obtain ⟨hx, ht⟩ := h
-        simp only [run, step, hg, List.map_cons, Call.arg]
+        simp only [run, step, hv, if_true, hg, List.map_cons, Call.arg]
         rw [ih s (by simpa [hg] using ht), hx]
       | none =>
         simp only [ObjFirst, hg] at h
         obtain ⟨hx, ht⟩ := h
-        simp only [run, step, hg, List.map_cons, Call.arg]
+        simp only [run, step, hv, if_true, hg, List.map_cons, Call.arg]
         rw [ih _ (by simpa [hx] using ht), hx]
 
-theorem step_model_of_not_obj {X : Type} (s : St X) (c : Call X)
-    (h : ∀ x, c ≠ Call.obj x) : (step s c).2.model = s.model := by
+/-- Repaired code: every callback is answered at the design it asks about, whatever the order. -/
+theorem run_pure_fixed {X : Type} [DecidableEq X] (v : Variant) (hv : v.noSync = false) (s : St X)
+    (cs : List (Call X)) : (run v s cs).1 = cs.map Call.arg := by
+  induction cs generalizing s with
+  | nil => rfl
+  | cons c t ih =>
+    cases c <;> simp only [run, step, hv, Bool.false_eq_true, if_false, List.map_cons, Call.arg] <;>
+      rw [ih]
+
+theorem step_model_of_not_obj {X : Type} [DecidableEq X] (v : Variant) (hv : v.noSync = true)
+    (s : St X) (c : Call X) (h : ∀ x, c ≠ Call.obj x) : (step v s c).2.model = s.model := by
   cases c with
   | obj x => exact absurd rfl (h x)
-  | con x => rfl
-  | grad x => rfl
-  | cgrad x => unfold step; cases s.gcache <;> rfl
+  | con x => simp [step, hv]
+  | grad x => simp [step, hv]
+  | cgrad x => simp only [step, hv, if_true]; cases s.gcache <;> rfl
 
-/-- The model is left at the design of the last objective evaluation. -/
-theorem run_final {X : Type} (s : St X) (pre post : List (Call X)) (x : X)
-    (hpost : ∀ c ∈ post, ∀ y, c ≠ Call.obj y) :
-    (run s (pre ++ Call.obj x :: post)).2.model = x := by
+/-- Anchored code: the model is left at the design of the last objective evaluation. -/
+theorem run_final {X : Type} [DecidableEq X] (v : Variant) (hv : v.noSync = true) (s : St X)
+    (pre post : List (Call X)) (x : X) (hpost : ∀ c ∈ post, ∀ y, c ≠ Call.obj y) :
+    (run v s (pre ++ Call.obj x :: post)).2.model = x := by
   have hp : ∀ (post : List (Call X)) (s : St X), (∀ c ∈ post, ∀ y, c ≠ Call.obj y) →
-      (run s post).2.model = s.model := by
+      (run v s post).2.model = s.model := by
     intro post
     induction post with
     | nil => intro s _; rfl
@@ -215,7 +226,7 @@ theorem run_final {X : Type} (s : St X) (pre post : List (Call X)) (x : X)
       intro s h
       simp only [run]
       rw [ih _ (fun c hc => h c (List.mem_cons_of_mem _ hc)),
-        step_model_of_not_obj s c (h c List.mem_cons_self)]
+        step_model_of_not_obj v hv s c (h c List.mem_cons_self)]
   induction pre generalizing s with
   | nil =>
     simp only [List.nil_append, run]
